@@ -28,7 +28,8 @@ check("C06", "exploration",
       "instance of the ten invalidating edits at every selection set (any depth, inside named and inline fragments, on "
       "object / interface / union parents; plus document-level edits and schema variants without a mutation / "
       "subscription root, incl. one whose `schema {}` block omits them while plain types carry the conventional names; a sample of every edit "
-      "kind again under three other option sets). The real generator must never return code for a document the reference validator rejects.",
+      "kind again under three other option sets; fragment-only sub-selections on leaves; invalid selections that a literal "
+      "@skip(if: true) / @include(if: false) would hide). The real generator must never return code for a document the reference validator rejects.",
       "Trusted: the reference validator (the ten rules of the property, from the GraphQL spec text). Only edits it "
       "confirms as invalidating are counted.",
       "bounded exhaustive enumeration of invalidating edits x positions against the real validator/generator",
@@ -37,7 +38,8 @@ check("C06", "exploration",
 check("C13", "model_checking",
       "The space is finite and enumerated completely: all 62 type expressions of list depth <= 4 x every kind of named "
       "type x {response field, variable, input field (also with a schema default), @oneOf member, field of an object that narrows "
-      "an interface's declaration} x {SDL, introspection JSON, SDL under rust normalization + skip-none}. The model is the "
+      "an interface's declaration} (plus variables with a default, response fields that carry @skip / @include, fields below a conditional inline fragment) x {SDL, "
+      "introspection JSON, SDL under rust normalization + skip-none}. The model is the "
       "structural modifier rule; the emitted field types are read from the real generator's token stream; the model's "
       "verdict is then validated on compiled code (rustc + serde) by injecting a null at every nesting level.",
       "Trusted: syn's parse of the emitted tokens; rustc/serde for the conformance runs. ID response fields under a list "
@@ -46,7 +48,8 @@ check("C13", "model_checking",
       "DESIGN.md 4 C13")
 
 check("C17", "fault_enumeration",
-      "Every input of an adversarial grammar (spread cycles of length 1-6 on every kind of type, with / without "
+      "Every input of an adversarial grammar (spread cycles of length 1-6 on every kind of type (incl. fragments whose whole body is one spread, and cycles on the root type of a "
+      "query / mutation / subscription), with / without "
       "__typename, direct or through fields, used or unused or entered from outside the cycle, object fragments hopping through an "
       "interface field in three definition orders; input-type cycles; nesting to depth 64; degenerate SDL and "
       "JSON schemas; every byte-prefix and single-token deletion of seed documents and schemas; the structural families also under two other "
@@ -60,7 +63,7 @@ check("C17", "fault_enumeration",
 check("C08", "model_checking",
       "Explicit-state search over the real process (call alphabet: valid pairs, the same file by other spellings and through symlinks, "
       "look-alike paths, cross pairs, missing / unparsable / wrong-extension files, queries that parse but fail validation against "
-      "their own and a look-alike schema, derive-mode calls for two operations of one file, other options): BFS over call histories to the fixpoint of reachable cache states "
+      "their own and a look-alike schema, derive-mode calls for two operations of one file, other options, and twelve-file histories that exceed any fixed-size cache): BFS over call histories to the fixpoint of reachable cache states "
       "(state = content of both process-wide caches read through hook H1), all histories up to a length bound without "
       "de-duplication, and a preemption-bounded DFS over thread schedules executed by real threads on the real mutex "
       "under a baton scheduler (one fresh process per schedule, failing schedules replayed). Every call's outcome is "
@@ -92,7 +95,8 @@ check("C16", "exploration",
 check("C05", "model_checking",
       "States = distinct query-document texts of a grammar (all orders of all admissible sets of 1-3 operations and 0-2 "
       "fragments; trivia deviations: tab, LF/CRLF/CR, commas, comments incl. one that looks like an operation, BOM, string "
-      "escapes, block strings with the character pairs that end raw Rust strings, non-ASCII, trailing newline or not); transitions = (mode, selected name, normalization, entry point). Model: "
+      "escapes, block strings with the character pairs that end raw Rust strings, non-ASCII, trailing newline or not, an operation named like a Rust keyword); transitions = (mode, selected name - incl. a CLI name that matches "
+      "nothing: documented fall-back to every operation, each module complete -, normalization, entry point). Model: "
       "QUERY is the source text byte for byte, OPERATION_NAME the unmodified name, modules belong to the selected operation, "
       "derive mode never falls back. Model verdicts are read from the real generator's tokens and validated on compiled "
       "modules (constants and serialised build_query body).",
@@ -102,10 +106,11 @@ check("C05", "model_checking",
       "DESIGN.md 4 C05")
 
 check("C07", "model_checking",
-      "States = schemas of a feature lattice (all subsets up to a size bound of 19 schema constructs, the full set, CORE) plus the "
+      "States = schemas of a feature lattice (all subsets up to a size bound of 20 schema constructs - incl. type names with one leading "
+      "underscore and several extension blocks of one type -, the full set, CORE) plus the "
       "schemas and operations harvested from the input spaces of C01, C10, C12 and C16 (which those checks feed as SDL only); "
       "transitions = comparisons of each rendering (3 SDL extensions, bare / data-wrapped JSON, with / without built-in "
-      "scalars and __ types, kind-grouped and reversed type orders, extensions folded) with the SDL rendering, for covering "
+      "scalars and __ types, kind-grouped and reversed type orders, extensions folded, extension blocks before the definitions they extend) with the SDL rendering, for covering "
       "query / mutation / subscription operations and three option sets. Relational oracle: identical token streams (identical "
       "after sorting items for permuted orders).",
       "Trusted: the pack's own SDL / introspection renderers (a wrong renderer shows up as a difference and is triaged).",
@@ -118,7 +123,7 @@ check("C12", "model_checking",
       "schema and with keyword / camelCase / underscore field names) and 29 fragment recursion patterns (incl. recursion entered through "
       "top-level inline fragments / spreads and spreads next to siblings of every kind). Model = finite-size rule "
       "on the emitted items (by-value containment, cut by Vec and Box). Conformance: a covering subset and its Box-stripped "
-      "twins are compiled; rustc's E0072 verdict must agree with the model in both directions; recursive values round-trip "
+      "twins are compiled; rustc's E0072 verdict must agree with the model in both directions; snake_case type names under rust normalization; recursive values round-trip "
       "through Variables with JSON that shows no trace of the Box (with skip_serializing_none: a None member is omitted, boxed or not).",
       "Trusted: rustc's size check as ground truth for the compiled subset; the syn-based edge report.",
       "explicit-state enumeration of type graphs against a finite-size model validated against rustc",
@@ -127,7 +132,7 @@ check("C12", "model_checking",
 check("C14", "model_checking",
       "Finite space enumerated completely: 3^4 deprecation assignments x {SDL, JSON, SDL with the fields declared in `extend type`} x 6 "
       "selection styles (direct, aliased, fragment, variant, on the interface, the object's own current copy of a field the interface "
-      "deprecates) x 4 strategies (+ a second type set, + another option set, + the reason alphabet on every field, + a block-string reason). Model = the three documented rules, evaluated on "
+      "deprecates) x 4 strategies (+ a selection of only the deprecated fields, + fields carrying @include, + a second type set, + another option set, + the reason alphabet on every field, + a block-string reason). Model = the three documented rules, evaluated on "
       "the generator's tokens (attribute presence, note == reason byte for byte, omission under deny, nothing else "
       "touched); the deny clause is validated on compiled code with payloads that contain the omitted fields.",
       "Trusted: syn's parse of attributes; rustc/serde for the conformance runs.",
@@ -136,7 +141,7 @@ check("C14", "model_checking",
 
 check("C03", "exploration",
       "On compiled generated code: for every operation of the bounded operation space and of the schema lattice (other-variant off, and on "
-      "wherever an abstract position exists; single-item operations also under rust normalization + skip-none) one conforming payload per runtime-type choice and every single-point corruption of "
+      "wherever an abstract position exists; single-item operations also under rust normalization + skip-none; fragments carrying @skip whose fields are present) one conforming payload per runtime-type choice and every single-point corruption of "
       "it (null / missing at non-null, non-list at list, each wrong JSON kind at each scalar, non-object at object, "
       "__typename unknown / deleted / non-string / swapped). Forbidden payloads must be rejected; unknown __typename must be "
       "an error or, with the option on, yield Unknown; a swapped known __typename must select its own variant.",
@@ -151,7 +156,8 @@ check("C04", "exploration",
       "the deviation bound is deserialised into Variables (expressibility) and serialised via build_query; the output must "
       "equal the reference Variables model (exact key set, schema names, @oneOf single key, None omitted or null). Conversely every "
       "INVALID neighbour of the richest assignments (null / missing key at each non-null position, @oneOf with a null, no or two members) "
-      "must be refused by Deserialize - otherwise a Variables value exists that serialises to invalid JSON.",
+      "must be refused by Deserialize - otherwise a Variables value exists that serialises to invalid JSON; and a sample of assignments is "
+      "read back in Debug form: a schema enum value must sit in its own variant, not in the catch-all (a round trip cannot tell).",
       "Trusted: the reference Variables model; serde's derive as semantics of the generated types.",
       "bounded exhaustive enumeration of variable assignments on compiled generated code against a reference model",
       "DESIGN.md 4 C04")
@@ -160,7 +166,8 @@ check("C09", "exploration",
       "Relational check on compiled code: collision-rich operations (incl. one whose name is not CamelCase) x every wire-neutral option "
       "set (quick: default + all single and pairwise deviations; thorough: the full product of 7 dimensions), repeated under each base "
       "setting of the non-neutral options (skip-none, other-variant, deprecation), plus every single-item operation of C01's space under "
-      "the default and one alternative per dimension; x every payload vector, single-point "
+      "the default, one alternative per dimension and - where it compiles - `Default` among the response derives; at token level the two "
+      "derive lists (incl. lists without Serialize / Deserialize) may change `#[derive(..)]` and nothing else; x every payload vector, single-point "
       "corruption and variables assignment; acceptance, re-serialised payload and serialised variables must equal those "
       "under the default options.",
       "Trusted: nothing beyond rustc/serde; the oracle is equality between option sets. Extern enums are consumer-supplied "
@@ -174,7 +181,8 @@ check("C10", "exploration",
       "alphabet (schema values, near-misses, empty, blank, non-ASCII, long) and non-string values, with two sibling enums in every module. Every string must "
       "deserialise and serialise back to itself; schema values get distinct non-catch-all variants and never the variant named after "
       "another value (value sets include pairs whose string order differs from their identifier order); a subset again under other derives, "
-      "skip-none, other-variant and from the JSON form of the schema.",
+      "skip-none, other-variant and from the JSON form of the schema; lists of the enum, a defaulted enum input field, and deprecated enum "
+      "values under all three strategies.",
       "Trusted: Debug output of the generated enum to tell variants apart.",
       "bounded exhaustive enumeration of enum definitions x strings on compiled generated code",
       "DESIGN.md 4 C10")
@@ -182,7 +190,7 @@ check("C10", "exploration",
 check("C11", "exploration",
       "Finite space enumerated completely: 54 keywords (strict, reserved, weak; editions 2015-2024), 14 case styles, 10 "
       "controls x 10 name positions (incl. ID-typed fields, aliases of optional IDs, an alias of the field named like the alias's own Rust "
-      "field, a recursive input field), schema-borne names also from introspection JSON and input-side names also under rust normalization, "
+      "field, a recursive input field, an object-typed list field), enum values additionally checked to land in their own variant, schema-borne names also from introspection JSON and input-side names also under rust normalization, "
       "plus every keyword in other case styles at the positions that snake_case it; one generated module per (name, position), compiled and run; the wire key / string must "
       "be exactly the GraphQL name.",
       "Trusted: rustc (edition 2021) and serde.",
@@ -203,7 +211,7 @@ check("C02", "exploration",
 
 check("C19", "fault_enumeration",
       "Every setting of 15 dimensions (12 flags, a pre-existing longer destination file, the schema file form .graphql / .graphqls / .gql / "
-      ".json, the query file's bytes LF / CRLF / comments+tabs) of the real `graphql-client generate` binary within the deviation bound of the "
+      ".json, the query file's bytes LF / CRLF / comments+tabs, absolute / working-directory-relative paths, a non-CamelCase third operation) of the real `graphql-client generate` binary within the deviation bound of the "
       "default invocation (quick 3, thorough 4), two query file names, output placement, formatting; the written file must "
       "be the header plus exactly the library's token stream for the options the flag table prescribes, at "
       "<out or query dir>/<stem>.rs, with nothing else in the tree changed. Failure clause: instances of every invalidating "
@@ -218,7 +226,7 @@ check("C20", "fault_enumeration",
       "Real `graphql-client introspect-schema` against a scripted loopback endpoint: all flag combinations and every "
       "header string of the alphabet for the request model (one POST, exact JSON body, headers, bearer token; invalid "
       "header strings refused before any connection; header values with commas, semicolons, quotes and further colons; --no-ssl against "
-      "plain http changes nothing); 26 server behaviours (incl. bodies that only begin with a JSON value, chunked and whitespace-padded replies) x {stdout, new file, existing file}; connection "
+      "plain http changes nothing); 26 server behaviours (incl. bodies that only begin with a JSON value, chunked and whitespace-padded replies, a misleading charset parameter, invalid UTF-8) x {stdout, new file, existing file}; connection "
       "closed after k bytes for every k of a content-length reply. Success => served JSON, and the written file generates "
       "the same code as the schema's SDL; failure => non-zero exit, existing output byte-identical.",
       "Trusted: the mock server's log of what it received. No TLS endpoint. Header names that are not HTTP tokens cannot be carried by any client and are not judged.",
@@ -229,7 +237,7 @@ check("C18", "model_checking",
       "Model = flag -> option table. States = attribute token streams enumerated completely within the stated alphabet "
       "(every subset of the optional keys x orders x 4 string-literal styles x separators / trailing comma; every permutation "
       "of small subsets; every value of every key's domain alone and in pairs - incl. values and directory names that contain the words of "
-      "flags and of other keys; surrounding attributes; struct visibilities; "
+      "flags and of other keys, and module paths with a leading `::`; seven struct visibilities incl. pub(in path); surrounding attributes; struct visibilities; "
       "manifest-relative directories), compiled INSIDE graphql_query_derive through hook H2 so that the crate's real "
       "option-building functions are exercised; each is compared with the table through the token stream the real generator "
       "emits on an option-revealing fixture. Conformance: real derive expansions in graphql_client-only crates judged by "
